@@ -49,6 +49,16 @@ Proof.
 Qed.
 Print Assumptions C11_before_fix_refuted.
 
+(* Statuses are consistent, for every schedule, configuration, behaviour and stop point: once the consumer is
+   done, the phase status is at least as bad as every scenario status it emitted (SKIP aside), and is not SKIP. *)
+Theorem C11_status_at_least_worst : forall c sched n os,
+  let s := run c sched (init n os) in
+  cp s = CDone ->
+  forall id st, In (ScFinish id st) (trace s) -> st <> SKIP ->
+    final_status s <> SKIP /\ srank st <= srank (final_status s).
+Proof. exact status_at_least_worst. Qed.
+Print Assumptions C11_status_at_least_worst.
+
 (* Plan level: one start first, exactly one finish last, phases opened and closed once, in order,
    whatever each phase did and wherever the run was stopped. *)
 Theorem C11_plan_wf : forall phases stop0, plan_wf (plan_events phases stop0) = true.
